@@ -168,7 +168,7 @@ LEVELS['C01'] = 'exploration'
 RULES['C01'] = 'case = generated writer program (1-3 FSR signals: type x definition class x first id x length class x partition class), closed, length and >=60 windows compared bit-for-bit with the submitted stream; distinct = distinct (type,def,first,len,partition,pattern) tuples of signals that accepted data'
 ASSUME['C01'] = DECODER_ASSUMPTIONS
 
-CHECKS['C02'] = [file_run('c02', 400, 5000, ['C02'], extra=['--cpu', '120'])]   # the long-double oracle is O(samples) per request
+CHECKS['C02'] = [file_run('c02', 400, 5000, ['C02'], extra=['--cpu', '600'])]   # the long-double oracle is O(samples) per request
 LEVELS['C02'] = 'exploration'
 RULES['C02'] = 'case = one FSR signal of a summarisable type with enough samples for the target summary level; ~80 (start,increment,count) requests per case checked against long-double statistics of the submitted samples with the tolerances of DESIGN 4-C02; distinct = (type,def class,levels on disk,first id class,pattern,gap)'
 ASSUME['C02'] = ['requests on 64-bit types that need level 0 may return UNSUPPORTED_FILE (the reader cannot summarise 64-bit samples directly)', 'windows whose widened range contains gap fill or non-finite samples are skipped, as the statement excludes them']
